@@ -232,3 +232,36 @@ pub fn generate_c18<W: Write>(c: &mut Cases<W>, rng: &mut Rng, thorough: bool) {
         emit(c, &cfg, &es, false);
     }
 }
+
+/// C14 at the API level: entries whose key or value length sits at each framing boundary, written by
+/// the real writer and read back by the real reader (and replayed by the model)
+pub fn generate_c14<W: Write>(c: &mut Cases<W>, rng: &mut Rng, thorough: bool) {
+    let base = FileCfg { codec: CompressionType::None, level: 0, block_size: 8192, unclamped: false, interval: None, levels: 0 };
+    let mut lens: Vec<usize> = vec![0, 1, 2, 126, 127, 128, 129, 130, 255, 256, 257, 383, 384, 512, 1024, 16255, 16383, 16384, 16385, 16512, 32768];
+    if thorough {
+        lens.extend([2097151usize, 2097152, 2097153]);
+    }
+    for (i, &l) in lens.iter().enumerate() {
+        let cfg = FileCfg { levels: (i % 3) as u8, interval: Some(1 + i % 4), ..base.clone() };
+        // the boundary length as key length, as value length, and both; with neighbours around it
+        let fill = |n: usize, b: u8| vec![b; n];
+        let es = vec![(fill(l, 0x10), fill(3, 1)), (fill(l + 1, 0x20), fill(l, 2)), (fill(2, 0x30), fill(l, 3)), (fill(3, 0x30), vec![])];
+        emit(c, &cfg, &es, false);
+        let es2 = vec![(vec![1u8], fill(l, 9))];
+        emit(c, &cfg, &es2, false);
+    }
+    for _ in 0..(if thorough { 300 } else { 40 }) {
+        let cfg = gen_cfg(rng, false, true);
+        let mut es = Vec::new();
+        let mut key = vec![0u8];
+        for _ in 0..rng.range(1, 12) {
+            let kl = *rng.pick(&[1usize, 5, 127, 128, 129, 256, 300]);
+            let vl = *rng.pick(&[0usize, 127, 128, 255, 256, 384, 16383, 16384]);
+            key[0] += 1;
+            let mut k = key.clone();
+            k.resize(kl, 0x42);
+            es.push((k, vec![rng.next() as u8; vl]));
+        }
+        emit(c, &cfg, &es, false);
+    }
+}
